@@ -9,12 +9,6 @@ Open Scope N_scope.
 
 Definition small (s : wstate) : Prop := len (w_bs s) + 65536 <= 4294967296.
 
-Definition op_valid (o : op) : Prop :=
-  match o with
-  | OpNew name | OpAdd name _ => 1 <= len name
-  | _ => True
-  end.
-
 Definition pairs (rs : list rec) : list (bytes * N) := map (fun r => (r_name r, r_val r)) rs.
 
 (* the state as the layout reader sees it *)
@@ -95,7 +89,8 @@ End AddAt.
 
 Definition ok_result (o : op) (r : op_result) : Prop :=
   match o with
-  | OpNew name | OpAdd name _ => if 4096 <? len name then r = RLong else exists off, r = ROk off
+  | OpNew name | OpAdd name _ =>
+      if len name =? 0 then r = REmpty else if 4096 <? len name then r = RLong else exists off, r = ROk off
   | OpExtend _ => r = RDone
   | OpReopen _ => r = RDone \/ r = RFail
   end.
@@ -113,21 +108,27 @@ Definition records_step (o : op) (r : op_result) (rs rs' : list rec) : Prop :=
   | _, _ => rs' = rs
   end.
 
-Lemma step_inv s o rs : Inv s -> small s -> op_valid o -> reads s rs ->
+Lemma step_inv s o rs : Inv s -> small s -> reads s rs ->
   let '(r, s') := step s o in
   Inv s' /\ ok_result o r /\ limit_of (w_bs s) <= limit_of (w_bs s') /\ len (w_bs s) <= len (w_bs s') /\
   exists rs', reads s' rs' /\ records_step o r rs rs'.
 Proof.
-  intros HI Hs Hv Hr. pose proof HI as [(m & kv & limit & tbl & Hread) Hh Ht].
+  intros HI Hs Hr. pose proof HI as [(m & kv & limit & tbl & Hread) Hh Ht].
   assert (Ers : rs = concat tbl).
   { eapply reads_fun; [exact Hr|]. exists m, kv, limit, tbl. now split. }
   subst rs.
   pose proof (Inv_limit _ HI) as [ELs _].
   pose proof (spec_read_inv _ _ _ _ _ _ Hread) as (Eh & Ek & El & H1 & H2 & H3 & H4 & H5 & Hft & Hp).
-  destruct o as [name|name delta|e|meta']; cbn [step op_valid ok_result] in *.
+  destruct o as [name|name delta|e|meta']; cbn [step ok_result] in *.
   - (* OpNew *)
+    destruct (N.eqb_spec (len name) 0) as [Hemp|Hv].
+    { unfold new_counter. destruct (N.eqb_spec (len name) 0) as [_|X]; [|contradiction]. cbn [nc_to_op].
+      destruct s as [sm sh sb]; cbn [w_meta w_hdr w_bs] in *.
+      split; [exact HI|]. split; [reflexivity|]. split; [lia|]. split; [lia|].
+      exists (concat tbl). split; [exact Hr|reflexivity]. }
     destruct (N.ltb_spec 4096 (len name)) as [Hlong|Hlen].
     + unfold new_counter. change c_maxNameLen with 4096.
+      destruct (N.eqb_spec (len name) 0) as [X|_]; [contradiction|].
       destruct (N.ltb_spec 4096 (len name)) as [_|X]; [|lia]. cbn [nc_to_op].
       destruct s as [sm sh sb]; cbn [w_meta w_hdr w_bs] in *.
       split; [exact HI|]. split; [reflexivity|]. split; [lia|]. split; [lia|].
@@ -147,8 +148,14 @@ Proof.
       exists rcd. repeat split; try assumption.
       destruct Hcase as [(_ & -> & _)|(V0 & HA & Hf)]; [now left|right; repeat split; assumption].
   - (* OpAdd *)
+    destruct (N.eqb_spec (len name) 0) as [Hemp|Hv].
+    { unfold new_counter. destruct (N.eqb_spec (len name) 0) as [_|X]; [|contradiction]. cbn [nc_to_op].
+      destruct s as [sm sh sb]; cbn [w_meta w_hdr w_bs] in *.
+      split; [exact HI|]. split; [reflexivity|]. split; [lia|]. split; [lia|].
+      exists (concat tbl). split; [exact Hr|reflexivity]. }
     destruct (N.ltb_spec 4096 (len name)) as [Hlong|Hlen].
     + unfold new_counter. change c_maxNameLen with 4096.
+      destruct (N.eqb_spec (len name) 0) as [X|_]; [contradiction|].
       destruct (N.ltb_spec 4096 (len name)) as [_|X]; [|lia]. cbn [nc_to_op].
       destruct s as [sm sh sb]; cbn [w_meta w_hdr w_bs] in *.
       split; [exact HI|]. split; [reflexivity|]. split; [lia|]. split; [lia|].
@@ -219,13 +226,13 @@ Proof.
 Qed.
 
 (* writer_wf: the invariant after every operation sequence *)
-Lemma run_ops_inv ops : forall s, Inv s -> Forall op_valid ops -> all_small s ops ->
+Lemma run_ops_inv ops : forall s, Inv s -> all_small s ops ->
   Inv (snd (run_ops s ops)).
 Proof.
-  induction ops as [|o t IH]; intros s HI Hv Hs; [exact HI|].
-  rewrite run_ops_cons. cbn [snd]. inversion Hv as [|? ? Hv1 Hv2]; subst. destruct Hs as [Hs1 Hs2].
+  induction ops as [|o t IH]; intros s HI Hs; [exact HI|].
+  rewrite run_ops_cons. cbn [snd]. destruct Hs as [Hs1 Hs2].
   destruct (Inv_reads _ HI) as [rs Hr].
-  pose proof (step_inv s o rs HI Hs1 Hv1 Hr) as P. destruct (step s o) as [r s1]. cbn [snd] in *.
+  pose proof (step_inv s o rs HI Hs1 Hr) as P. destruct (step s o) as [r s1]. cbn [snd] in *.
   destruct P as (HI1 & _). now apply IH.
 Qed.
 
@@ -246,31 +253,30 @@ Proof.
 Qed.
 
 Theorem writer_wf meta s0 ops : meta_ok meta -> create [] meta = Some s0 ->
-  Forall op_valid ops -> all_small s0 ops ->
+  all_small s0 ops ->
   forall n, wf_file (w_bs (snd (run_ops s0 (firstn n ops)))) = true.
 Proof.
-  intros Hm Hc Hv Hs n. apply Inv_wf. apply run_ops_inv.
+  intros Hm Hc Hs n. apply Inv_wf. apply run_ops_inv.
   - eapply create_inv; eassumption.
-  - now apply Forall_firstn.
   - now apply all_small_firstn.
 Qed.
 
 (* limit_monotone and limit_le_size, for every step of every sequence *)
-Theorem limit_monotone s o : Inv s -> small s -> op_valid o ->
+Theorem limit_monotone s o : Inv s -> small s ->
   limit_of (w_bs s) <= limit_of (w_bs (snd (step s o))) /\ len (w_bs s) <= len (w_bs (snd (step s o))).
 Proof.
-  intros HI Hs Hv. destruct (Inv_reads _ HI) as [rs Hr].
-  pose proof (step_inv s o rs HI Hs Hv Hr) as P. destruct (step s o) as [r s1]. cbn [snd].
+  intros HI Hs. destruct (Inv_reads _ HI) as [rs Hr].
+  pose proof (step_inv s o rs HI Hs Hr) as P. destruct (step s o) as [r s1]. cbn [snd].
   destruct P as (_ & _ & P1 & P2 & _). split; assumption.
 Qed.
 
 Theorem limit_le_size s : Inv s -> limit_of (w_bs s) <= len (w_bs s).
 Proof. intro HI. now apply Inv_limit. Qed.
 
-Theorem ops_succeed s o : Inv s -> small s -> op_valid o -> ok_result o (fst (step s o)).
+Theorem ops_succeed s o : Inv s -> small s -> ok_result o (fst (step s o)).
 Proof.
-  intros HI Hs Hv. destruct (Inv_reads _ HI) as [rs Hr].
-  pose proof (step_inv s o rs HI Hs Hv Hr) as P. destruct (step s o) as [r s1]. cbn [fst].
+  intros HI Hs. destruct (Inv_reads _ HI) as [rs Hr].
+  pose proof (step_inv s o rs HI Hs Hr) as P. destruct (step s o) as [r s1]. cbn [fst].
   now destruct P as (_ & P & _).
 Qed.
 
@@ -410,26 +416,26 @@ Qed.
 (* roundtrip_spec, first half: an independent reader of the layout finds
    exactly the abstract map of the operations *)
 Lemma run_abs_repr ops : forall s m rs, Inv s -> reads s rs -> repr rs m ->
-  Forall op_valid ops -> all_small s ops ->
+  all_small s ops ->
   let '(s', m') := run_abs s m ops in
   Inv s' /\ exists rs', reads s' rs' /\ repr rs' m'.
 Proof.
-  induction ops as [|o t IH]; intros s m rs HI Hr Hrep Hv Hs; cbn [run_abs].
+  induction ops as [|o t IH]; intros s m rs HI Hr Hrep Hs; cbn [run_abs].
   - split; [exact HI|]. now exists rs.
-  - inversion Hv as [|? ? Hv1 Hv2]; subst. destruct Hs as [Hs1 Hs2].
-    pose proof (step_inv s o rs HI Hs1 Hv1 Hr) as P. destruct (step s o) as [r s1]. cbn [fst snd] in *.
+  - destruct Hs as [Hs1 Hs2].
+    pose proof (step_inv s o rs HI Hs1 Hr) as P. destruct (step s o) as [r s1]. cbn [fst snd] in *.
     destruct P as (HI1 & _ & _ & _ & rs1 & Hr1 & Hst).
     apply (IH s1 (amap_step m o r) rs1 HI1 Hr1); try assumption.
     eapply repr_step; eassumption.
 Qed.
 
 Theorem roundtrip_written meta s0 ops : meta_ok meta -> create [] meta = Some s0 ->
-  Forall op_valid ops -> all_small s0 ops ->
+  all_small s0 ops ->
   let '(s, m) := run_abs s0 (fun _ => None) ops in
   exists rs, spec_records (w_bs s) = Some rs /\ NoDup (map r_name rs) /\
              forall k v, In (k, v) (pairs rs) <-> m k = Some v.
 Proof.
-  intros Hm Hc Hv Hs. pose proof (create_inv _ _ Hc Hm) as HI0.
+  intros Hm Hc Hs. pose proof (create_inv _ _ Hc Hm) as HI0.
   destruct (Inv_reads _ HI0) as [rs0 Hr0].
   assert (E0 : rs0 = []).
   { destruct Hm as (_ & Hn & Hk). destruct (mapped_header meta) as [h|] eqn:Hh.
@@ -443,7 +449,7 @@ Proof.
   subst rs0.
   assert (Hrep0 : repr [] (fun _ => None)).
   { split; [reflexivity|]. intros k v. cbn. split; [contradiction|discriminate]. }
-  pose proof (run_abs_repr ops s0 _ [] HI0 Hr0 Hrep0 Hv Hs) as P.
+  pose proof (run_abs_repr ops s0 _ [] HI0 Hr0 Hrep0 Hs) as P.
   destruct (run_abs s0 (fun _ => None) ops) as [s m]. destruct P as (_ & rs & Hr & Hp & Hrep).
   exists rs. split; [now apply reads_records|]. split; [now apply pairwise_names|exact Hrep].
 Qed.
